@@ -203,7 +203,9 @@ CLAIMS["C14"] = dict(
          "yielded error; the eight finalize entry points pass the announced malleability switch, visit every input and "
          "refuse out-of-range indices; the updater records exactly the BIP-174 scripts per descriptor type; get_descriptor "
          "infers a descriptor exactly when redeem / witness scripts and signing keys commit to the spent output (1260 "
-         "combinations of output type x redeem script x witness script x keys).",
+         "combinations of output type x redeem script x witness script x keys); sighash_msg requests the digest flavour, "
+         "script code, input index, amount and sighash type that BIP-341 / BIP-143 / legacy signing prescribe for the "
+         "spent output type (decision table over output type x scripts x leaf hash x sighash type x input position).",
     note="Trusted: rust-bitcoin PSBT / lock-time types modelled by fields and consensus encodings; C13 (interpreter) and "
          "C01-C03 (satisfier); rustc THIR/MIR; evaluator. Real signatures / sighashes, extraction, operation-history "
          "independence beyond the per-call state tables, and taproot field population are not decided.",
@@ -235,7 +237,8 @@ CLAIMS["C11"] = dict(
          "deletion, structural insertion and truncation of valid texts, degenerate arities, huge / zero / signed "
          "numbers, non-ASCII, stray separators and checksums, deep nesting); every short and truncated witness stack "
          "through the interpreter for ~60 scripts; every single-instruction mutation of ~90 scripts and all tiny "
-         "scripts through lexer + decoder; PSBT preimage look-ups of wrong length. Structural: the parser's depth "
+         "scripts through lexer + decoder; PSBT preimage look-ups of wrong length; the finalizer's spent-output "
+         "look-ups over utxo presence x previous-transaction size x vout. Structural: the parser's depth "
          "pre-check (402 accepted, 403 refused) dominates tree construction; every recursive cycle of the MIR call "
          "graph reachable from an entry point consists of audited functions whose depth that pre-check (or "
          "from_ast's tree-height check) bounds.",
@@ -290,7 +293,8 @@ CLAIMS["C15"] = dict(
          "combs reaching depth 127 / 128 with one to three bottom pairs on either side: the root handed to the tweak is "
          "the BIP-341 root; every leaf's control block folds from its leaf hash along its branch to that root, has "
          "branch length = depth and the spend info's key / parity; leaves come in tree order with their own scripts; "
-         "parsing / printing (TapTreeBuilder, Display) and translate_pk keep depths and order.",
+         "parsing / printing (TapTreeBuilder, Display) and translate_pk keep depths and order; TapTree::combine puts "
+         "both subtrees one level deeper in order and fails exactly beyond depth 128.",
     note="Trusted: collision freedom and the byte-level tagged hashes / tweak arithmetic of rust-bitcoin (not decided: "
          "the design round's reason for `not applicable` still applies to that part); rustc THIR; evaluator. Bounded "
          "family of tree shapes.",
